@@ -248,7 +248,8 @@ def run_tlc(module, cfg, files=(), workers="auto", simulate=None, depth=None, se
                                          or (simulate and p.returncode == 0)
                                          or "Finished in" in p.stdout and "Error:" not in p.stdout)
         if not r.ok and r.violated is None:
-            raise HarnessError("TLC failed on %s/%s (rc=%d):\n%s" % (module, cfg, p.returncode, p.stdout[-6000:]))
+            i = p.stdout.find("Error:")
+            raise HarnessError("TLC failed on %s/%s (rc=%d):\n%s\n...\n%s" % (module, cfg, p.returncode, p.stdout[max(0, i - 200):i + 2500] if i >= 0 else "", p.stdout[-1500:]))
         if keep:
             os.makedirs(os.path.dirname(keep), exist_ok=True)
             open(keep, "w").write(p.stdout)
